@@ -224,7 +224,12 @@ def generate(comp, repo, outdir):
     report = []
     for t in spec.get("defs", []):
         try:
-            text = locate(source(t["file"]), t)
+            try:
+                text = locate(source(t["file"]), t)
+            except GenError:
+                if "default" not in t:      # opt-in: a target may say what its absence means (e.g. "member not swapped" = 0)
+                    raise
+                text = t["default"]
             for pat, rep in t.get("subst", []):     # optional textual normalisation before parsing
                 text = re.sub(pat, rep, text)
             names = dict(known)
